@@ -283,7 +283,7 @@ def run_cdc(cfg, stim, backend="fast", max_ticks=None):
     dut, sim = get_sim(cfg, backend)
     sl = stim.get("slave", {})
     slave = native_slave([dut.ctrl], sl)
-    master = NativeMaster(dut.user, stim["ops"], wait_reads=stim.get("wait_reads", False))
+    master = NativeMaster(dut.user, stim["ops"], wait_reads=stim.get("wait_reads", False), rready_pattern=stim.get("rready"))
     nreads = sum(1 for op in stim["ops"] if not op["we"])
     tcount = {"user": 0, "sys": 0}
     xlog = {"cmd_u": [], "cmd_s": [], "wd_u": [], "wd_s": [], "rd_u": [], "rd_s": []}
